@@ -83,6 +83,22 @@ class Ctx:
             self.samples.append(s)
 
 
+def include(ctx: 'Ctx', fn: Callable[['Ctx'], None], rule: str, origin: str) -> None:
+    """Run a rule set owned by another property inside this one (quick tier): its obligations are relabelled `rule/<own id>`;
+    a finding listed for the owning property stays a known finding here."""
+    sub = Ctx(origin, ctx.tier, ctx.repo)
+    fn(sub)
+    for o in sub.obligations:
+        o.origin = origin
+        o.rule = f'{rule}/{o.rule}'
+        ctx.obligations.append(o)
+        ctx.rules_seen[o.rule] = ctx.rules_seen.get(o.rule, 0) + 1
+    ctx.functions |= sub.functions
+    for k, v in sub.counters.items():
+        ctx.counters[k] = ctx.counters.get(k, 0) + v
+    ctx.notes.extend(sub.notes)
+
+
 def load_known() -> list[dict]:
     if not os.path.exists(KNOWN_FINDINGS):
         return []
